@@ -1,4 +1,4 @@
-import SFV.Lemmas.DeployG
+import SFV.Lemmas.DeployR
 import SFV.Gen.DeployGuards
 /-! # C26 — deployments follow a safe lifecycle under concurrent requests
 
@@ -90,6 +90,75 @@ theorem deploy_returns_after_live_partial {cfg : Cfg} (s s' : St) (p o : Nat) (h
     unfold finishDeploy
     split <;> simp
   · cases hs
+
+/-- **partial — a deploy request returns only after the connector is deployed** when no undeploy request runs
+    concurrently: any number of concurrent `deploy(D)` / use requests of an eager deployment, every interleaving, any
+    failing `deploy()`: whenever a deploy request reaches `done` — at its start (it finds the event set), when woken from
+    the event wait, or when its own connector call completes — the connector registered in `deployments_map` has finished
+    `deploy()` successfully. (`deploy_returns_after_live_false` shows the hypothesis is needed for the code as it is.) -/
+theorem deploy_returns_after_live_no_undeploy {cfg : Cfg} {kinds s} (hk : ∀ p, kinds p ≠ some .undeploy)
+    (h : Reachable cfg false kinds s) (a : Act) (s' : St) (hs : step cfg s a = some s') (p : Nat)
+    (ha : (a = .start p ∧ s.pc p = .idle .deploy) ∨ (a = .wake p ∧ s.pc p = .dWoken) ∨ (a = .connOk p ∧ ∃ o, s.pc p = .dConn o))
+    (hdone : s'.pc p = .done) :
+    ∃ o, s'.depmap = some (.eager o) ∧ (s'.objs o).dep = .ok := by
+  have hR' := invR_reachable hk (Reachable.step h hs)
+  have hE' := invE_reachable (Reachable.step h hs)
+  have hl' := lazy_reachable (Reachable.step h hs)
+  obtain ⟨r1, r2, r3, r4, r5, r6, r7, r8⟩ := invR_reachable hk h
+  have hl := lazy_reachable h
+  -- in the new state: the current event is set and a connector is registered
+  have fin : ∀ (t : St), (finishDeploy t p).evmap = t.evmap ∧ (finishDeploy t p).evs = t.evs ∧ (finishDeploy t p).depmap = t.depmap := by
+    intro t; unfold finishDeploy; split <;> exact ⟨rfl, rfl, rfl⟩
+  have key : ∃ e, s'.evmap = some e ∧ s'.evs e = true ∧ s'.depmap ≠ none := by
+    rcases ha with ⟨rfl, hp⟩ | ⟨rfl, hp⟩ | ⟨rfl, o, hp⟩
+    · simp only [step, hp] at hs
+      cases hs
+      have hcfg : s.config = true := by
+        cases hc : s.config with
+        | true => rfl
+        | false => simp [loopHead, hc, register, hl] at hdone
+      cases hev : s.evmap with
+      | none => simp [loopHead, hcfg, hev] at hdone
+      | some e =>
+        cases hset : s.evs e with
+        | false => simp [loopHead, hcfg, hev, hset] at hdone
+        | true =>
+          cases hd : s.depmap with
+          | none => simp [loopHead, hcfg, hev, hset, afterWait, hd] at hdone
+          | some d =>
+            have heq : loopHead s p = finishDeploy s p := by simp [loopHead, hcfg, hev, hset, afterWait, hd]
+            rw [heq]
+            obtain ⟨f1, f2, f3⟩ := fin s
+            exact ⟨e, by rw [f1, hev], by rw [f2, hset], by rw [f3, hd]; simp⟩
+    · simp only [step, hp] at hs
+      cases hs
+      obtain ⟨hcf, hevs⟩ := r6 p hp
+      cases hev : s.evmap with
+      | none => exact absurd hev (r8 hcf)
+      | some e =>
+        cases hd : s.depmap with
+        | none => simp [afterWait, hd] at hdone
+        | some d =>
+          have heq : afterWait s p = finishDeploy s p := by simp [afterWait, hd, hcf]
+          rw [heq]
+          obtain ⟨f1, f2, f3⟩ := fin s
+          exact ⟨e, by rw [f1, hev], by rw [f2, hevs e hev], by rw [f3, hd]; simp⟩
+    · simp only [step, hp] at hs
+      have hdm := r7 p o hp
+      cases hev : s.evmap with
+      | none => simp [hev] at hs
+      | some e =>
+        simp only [hev] at hs
+        cases hs
+        obtain ⟨f1, f2, f3⟩ := fin (setEvent (setObj s o { s.objs o with dep := .ok }) e)
+        exact ⟨e, by rw [f1]; simpa using hev, by rw [f2]; simp, by rw [f3]; simp [hdm]⟩
+  obtain ⟨e, he, hse, hd⟩ := key
+  cases hdm : s'.depmap with
+  | none => exact absurd hdm hd
+  | some dm =>
+    cases dm with
+    | eager o => exact ⟨o, rfl, hR'.2.2.1 e o he hse hdm⟩
+    | future f => have := hE'.2.1 f hdm; rw [hl'] at this; cases this
 
 /-! ### a failed deployment makes waiting requests fail (no wrappers) -/
 
